@@ -159,7 +159,8 @@ def get_flask_app(
     from flask import Flask
 
     blueprint = get_flask_blueprint(converter, **(blueprint_kwargs or {}))
-    app = Flask(__name__, **(flask_kwargs or {}))
+    # Flask's default ``/static/<path:filename>`` route would shadow the prefix "static" when the delimiter is "/"
+    app = Flask(__name__, **{"static_folder": None, **(flask_kwargs or {})})
     app.register_blueprint(blueprint, **(register_kwargs or {}))
     return app
 
